@@ -5,8 +5,8 @@ EXPL = "exploration"
 PROPS = {}
 
 
-def prop(pid, rule, quick=None, thorough=None, race=False, crash_is_violation=False, assumptions=None, level=EXPL):
-    PROPS[pid] = dict(rule=rule, race=race, crash_is_violation=crash_is_violation, level=level,
+def prop(pid, rule, quick=None, thorough=None, race=False, crash_is_violation=False, assumptions=None, level=EXPL, rlimit_as_gb=None):
+    PROPS[pid] = dict(rule=rule, race=race, crash_is_violation=crash_is_violation, level=level, rlimit_as_gb=rlimit_as_gb,
                       quick=quick or dict(shards=1, timeout=300), thorough=thorough or dict(shards=16, timeout=1500),
                       assumptions=assumptions or [])
 
@@ -195,10 +195,18 @@ prop("C08",
           "/patch with hostile publishTime, /api create/info/step/delete with hostile JSON and ids, /vod, static and misc routes. Oracle: no "
           "panic (value and first livesim2 frame reported), returns within 10 s (re-run alone before it is called a hang), deliberate status, "
           "4xx with a message for malformed / documented out-of-range values, 404 for unknown assets and segments. Non-trivial = a request "
-          "that got past URL parsing (status != 400); distinct by method+URL+body.",
-     quick=dict(shards=2, timeout=400), thorough=dict(shards=16, timeout=1500), crash_is_violation=True,
+          "that got past URL parsing (status != 400); distinct by method+URL+body. Receiver part (TestC08Receiver): histories of 3-14 uploads "
+          "to a fresh receiver: valid init/media segments of video/audio/text tracks on 1-2 channels, and the same with 1-3 mutations (box size "
+          "fields set to 0,1,2,7,8,9,..,16 MiB, ~4 GiB or +-1..9; box types swapped incl. container/leaf confusion; truncation anywhere and inside "
+          "headers; 32-bit payload fields set to hostile values; trailing bytes; duplicated / swapped boxes; bit flips), hostile paths, all "
+          "methods, empty and random bodies, MPD uploads. Oracle: the handler returns within 10 s without panic with a deliberate status, the "
+          "channel goroutine drains its queue (hook VerifQuiesce), the process survives, and a well-formed stream uploaded afterwards on a "
+          "fresh channel is accepted and stored.",
+     quick=dict(shards=2, timeout=400), thorough=dict(shards=16, timeout=1500), crash_is_violation=True, rlimit_as_gb=6,
      assumptions=COMMON + ["traffic patterns are requested at instants in up/down states only (slow/hang sleep by design)",
-                           "upload bodies with declared box sizes above 16 MiB are not generated (allocation from a 4-byte field, see DESIGN)"])
+                           "upload bodies: declared top-level box sizes between 16 MiB and the 32-bit limit are cut to 24 bits (the chunk parser allocates what a header declares, DESIGN O6); "
+                           "declared table counts above 10^6 are cut to 10^6 (known finding KF-C08-rx-declared-counts, excluded by construction and counted); Content-Length is honest",
+                           "the C08 processes run under a 6 GiB address-space limit so that a runaway allocation ends the process under test, not the machine"])
 
 prop("C17",
      rule="rapid draws a channel of 1-4 tracks (master video, second video, audio, wvtt text rescaled to 1000 Hz), segment duration 1/2/3.84 s, "
